@@ -60,39 +60,205 @@ theorem sim_facts {cfg : Cfg} {g : Guard} {act : Act} {r : List GAct} {a : Abs}
     rcases hh with rfl | ⟨ls, rfl⟩ | ⟨o, c, rfl⟩ | rfl | rfl | rfl
     all_goals exact key _ rfl rfl (by simp [absAct])
 
-theorem exec_recflag {cfg : Cfg} {t : Nat} {sh sh' : Shared} {l l' : Local} {act : Act} {r : List GAct}
+/-- The actions that change the buffer without flushing it. -/
+def Act.bufChange (act : Act) : Prop :=
+  act = .hookPos ∨ (∃ ls, act = .pushUser ls) ∨ (∃ o c, act = .pushCtl o c) ∨ act = .renderFrame ∨ act = .restorePush ∨ act = .capEnd
+
+theorem exec_rec {cfg : Cfg} {t : Nat} {sh sh' : Shared} {l l' : Local} {act : Act} {r : List GAct}
     (he : exec cfg t sh { l with cont := r } act = some (sh', l')) :
-    (act = .recAppend ∧ sh'.record = sh.record ++ l.buffer ∧ l'.recDone = true) ∨
-    (act = .write ∧ sh'.record = sh.record ∧ l'.recDone = false) ∨
-    (act ≠ .recAppend ∧ act ≠ .write ∧ sh'.record = sh.record ∧ l'.recDone = l.recDone) := by
+    (act = .recAppend ∧ sh'.record = sh.record ++ l.buffer ∧ sh'.file = sh.file ∧ sh'.owner = sh.owner ∧
+        l'.buffer = l.buffer ∧ l'.recDone = true) ∨
+    (act = .write ∧ sh'.record = sh.record ∧ sh'.owner = sh.owner ∧ l'.buffer = [] ∧ l'.recDone = false ∧
+        sh'.file = (if l.buffer.any nonEmpty then sh.file ++ [⟨t, l.nops - 1, l.buffer⟩] else sh.file)) ∨
+    (act.bufChange ∧ sh'.record = sh.record ∧ sh'.file = sh.file ∧ sh'.owner = sh.owner ∧ l'.recDone = l.recDone) ∨
+    ((∃ lk, act = .acq lk ∨ act = .rel lk) ∧ sh'.record = sh.record ∧ sh'.file = sh.file ∧ l'.buffer = l.buffer ∧
+        l'.recDone = l.recDone) ∨
+    (sh'.record = sh.record ∧ sh'.file = sh.file ∧ sh'.owner = sh.owner ∧ l'.buffer = l.buffer ∧ l'.recDone = l.recDone) := by
   cases act <;> simp only [exec] at he
   case recAppend =>
     simp only [Option.some.injEq, Prod.mk.injEq] at he
     obtain ⟨rfl, rfl⟩ := he
-    exact Or.inl ⟨rfl, rfl, rfl⟩
+    exact Or.inl ⟨rfl, rfl, rfl, rfl, rfl, rfl⟩
   case write =>
     simp only [Option.some.injEq, Prod.mk.injEq] at he
     obtain ⟨rfl, rfl⟩ := he
-    exact Or.inr (Or.inl ⟨rfl, rfl, rfl⟩)
+    exact Or.inr (Or.inl ⟨rfl, rfl, rfl, rfl, rfl, rfl⟩)
+  case hookPos | restorePush | capEnd =>
+    simp only [Option.some.injEq, Prod.mk.injEq] at he
+    obtain ⟨rfl, rfl⟩ := he
+    exact Or.inr (Or.inr (Or.inl ⟨by simp [Act.bufChange], rfl, rfl, rfl, rfl⟩))
+  case pushUser ls =>
+    simp only [Option.some.injEq, Prod.mk.injEq] at he
+    obtain ⟨rfl, rfl⟩ := he
+    exact Or.inr (Or.inr (Or.inl ⟨Or.inr (Or.inl ⟨ls, rfl⟩), rfl, rfl, rfl, rfl⟩))
+  case pushCtl o c =>
+    simp only [Option.some.injEq, Prod.mk.injEq] at he
+    obtain ⟨rfl, rfl⟩ := he
+    exact Or.inr (Or.inr (Or.inl ⟨Or.inr (Or.inr (Or.inl ⟨o, c, rfl⟩)), rfl, rfl, rfl, rfl⟩))
+  case renderFrame =>
+    split at he <;>
+      (simp only [Option.some.injEq, Prod.mk.injEq] at he
+       obtain ⟨rfl, rfl⟩ := he
+       exact Or.inr (Or.inr (Or.inl ⟨by simp [Act.bufChange], rfl, rfl, rfl, rfl⟩)))
+  case acq lk =>
+    refine Or.inr (Or.inr (Or.inr (Or.inl ⟨⟨lk, Or.inl rfl⟩, ?_⟩)))
+    split at he
+    · simp only [Option.some.injEq, Prod.mk.injEq] at he
+      obtain ⟨rfl, rfl⟩ := he
+      exact ⟨rfl, rfl, rfl, rfl⟩
+    · split at he
+      · simp only [Option.some.injEq, Prod.mk.injEq] at he
+        obtain ⟨rfl, rfl⟩ := he
+        exact ⟨rfl, rfl, rfl, rfl⟩
+      · simp at he
+  case rel lk =>
+    refine Or.inr (Or.inr (Or.inr (Or.inl ⟨⟨lk, Or.inr rfl⟩, ?_⟩)))
+    split at he <;>
+      (simp only [Option.some.injEq, Prod.mk.injEq] at he
+       obtain ⟨rfl, rfl⟩ := he
+       exact ⟨rfl, rfl, rfl, rfl⟩)
   all_goals (
-    right; right
-    refine ⟨by simp, by simp, ?_⟩
+    refine Or.inr (Or.inr (Or.inr (Or.inr ?_)))
     first
       | (simp only [Option.some.injEq, Prod.mk.injEq] at he
          obtain ⟨rfl, rfl⟩ := he
-         exact ⟨rfl, rfl⟩)
+         exact ⟨rfl, rfl, rfl, rfl, rfl⟩)
       | (split at he <;>
           (simp only [Option.some.injEq, Prod.mk.injEq] at he
            obtain ⟨rfl, rfl⟩ := he
-           exact ⟨rfl, rfl⟩))
-      | (split at he
-         · simp only [Option.some.injEq, Prod.mk.injEq] at he
-           obtain ⟨rfl, rfl⟩ := he
-           exact ⟨rfl, rfl⟩
-         · split at he
-           · simp only [Option.some.injEq, Prod.mk.injEq] at he
-             obtain ⟨rfl, rfl⟩ := he
-             exact ⟨rfl, rfl⟩
-           · simp at he))
+           exact ⟨rfl, rfl, rfl, rfl, rfl⟩)))
+
+theorem pend_congr {s s' : State} (ho : s'.sh.owner .console = s.sh.owner .console)
+    (hth : ∀ u, (s'.th u).recDone = (s.th u).recDone ∧ (s'.th u).buffer = (s.th u).buffer) : pend s' = pend s := by
+  simp only [pend, ho]
+  cases s.sh.owner .console with
+  | none => rfl
+  | some u => simp only [(hth u).1, (hth u).2]
+
+/-- Every step of every thread preserves the record invariant. -/
+theorem rec_step {cfg : Cfg} {s s' : State} {t : Nat} (hrec : cfg.record = true) (inv : Inv cfg s) (ri : RecInv s)
+    (h : stepT cfg s t = some s') : RecInv s' := by
+  cases hc : (s.th t).cont with
+  | nil =>
+    rw [stepT_nil hc] at h
+    cases hp : (s.th t).prog with
+    | nil => rw [hp] at h; simp at h
+    | cons op rest =>
+      rw [hp] at h
+      simp only [Option.some.injEq] at h
+      subst h
+      have hp : pend { s with th := upd s.th t { s.th t with prog := rest, cont := code cfg op, nops := (s.th t).nops + 1 } } = pend s :=
+        pend_congr rfl (fun u => by by_cases hu : u = t <;> simp [upd, hu])
+      simpa only [RecInv, fileItems, hp] using ri
+  | cons g r =>
+    rw [stepT_cons hc] at h
+    by_cases hg : guardOn cfg (s.th t).depth (s.th t).hooked g.g = true
+    · rw [if_pos hg] at h
+      simp only [Option.map_eq_some_iff] at h
+      obtain ⟨⟨sh', l'⟩, he, rfl⟩ := h
+      have hsim := inv.sim t
+      rw [hc] at hsim
+      obtain ⟨gg, act⟩ := g
+      obtain ⟨f1, f2, f3, f4⟩ := sim_facts (a := (s.th t).abs) hg hsim
+      have ownc : Lock.console ∈ (s.th t).held → s.sh.owner .console = some t := (inv.own .console t).mpr
+      rcases exec_rec he with ⟨ha, hr, hf, ho, hb, hd⟩ | ⟨ha, hr, ho, hb, hd, hf⟩ | ⟨ha, hr, hf, ho, hd⟩ | ⟨ha, hr, hf, hb, hd⟩ |
+        ⟨hr, hf, ho, hb, hd⟩
+      · -- record append
+        obtain ⟨hheld, hrd⟩ := f1 ha
+        have hoc := ownc hheld
+        have hp0 : pend s = [] := by simp [pend, hoc]; exact fun h => by simp [Local.abs] at hrd; simp [hrd] at h
+        have hp1 : pend { sh := sh', th := upd s.th t l' } = (s.th t).buffer := by
+          simp [pend, ho, hoc, upd, hd, hb]
+        simp only [RecInv, fileItems, hr, hf, hp1] at ri ⊢
+        rw [hp0, List.append_nil] at ri
+        simp only [List.filter_append, ri]
+      · -- write
+        obtain ⟨hheld, hrd⟩ := f2 ha
+        have hoc := ownc hheld
+        have hp1 : pend { sh := sh', th := upd s.th t l' } = [] := by
+          simp [pend, ho, hoc, upd, hd]
+        simp only [RecInv, fileItems, hr, hp1, List.append_nil] at ri ⊢
+        have hrd' : (s.th t).recDone = true := hrd hrec
+        have hp0 : pend s = (s.th t).buffer := by simp [pend, hoc, hrd']
+        rw [hp0] at ri
+        rw [ri, hf]
+        by_cases hany : (s.th t).buffer.any nonEmpty = true
+        · simp [hany]
+        · have hany' : (s.th t).buffer.any nonEmpty = false := by simpa using hany
+          simp only [hany', Bool.false_eq_true, if_false, List.filter_append, filter_nonEmpty_nil hany', List.append_nil]
+      · -- the buffer changes while nothing is pending for this thread
+        have hrd : (s.th t).recDone = false := f4 ha
+        have hp : pend { sh := sh', th := upd s.th t l' } = pend s := by
+          simp only [pend, ho]
+          cases hoc : s.sh.owner .console with
+          | none => rfl
+          | some u =>
+            by_cases hu : u = t
+            · subst hu; simp [upd, hd, hrd]
+            · simp [upd, hu]
+        simpa only [RecInv, fileItems, hr, hf, hp] using ri
+      · -- a lock operation
+        have hp : pend { sh := sh', th := upd s.th t l' } = pend s := by
+          obtain ⟨lk, hlk⟩ := ha
+          rcases exec_held he with ⟨lk0, ha0, hfree, ho, hh⟩ | ⟨lk0, ha0, hm, hh, ho⟩ | ⟨ho, hh⟩
+          · by_cases hk : lk0 = .console
+            · subst hk
+              rcases hfree with hfr | hfr
+              · -- the console lock was free: this thread has nothing pending
+                have hrd : (s.th t).recDone = false := by
+                  cases hrd : (s.th t).recDone
+                  · rfl
+                  · have := ownc (inv.rd t hrd); rw [hfr] at this; simp at this
+                simp [pend, ho, updLock, hfr, upd, hd, hrd]
+              · simp [pend, ho, updLock, hfr, upd, hd, hb]
+            · have : sh'.owner .console = s.sh.owner .console := by
+                rw [ho]; simp [updLock]; intro h; exact absurd h.symm hk
+              simp only [pend, this]
+              cases s.sh.owner .console with
+              | none => rfl
+              | some u => by_cases hu : u = t <;> simp [upd, hu, hd, hb]
+          · by_cases hk : lk0 = .console
+            · subst hk
+              have hrd : (s.th t).recDone = false := f3 ha0
+              have hoc := ownc hm
+              by_cases hin : Lock.console ∈ (s.th t).held.erase .console
+              · simp [pend, ho, hin, hoc, upd, hd, hrd]
+              · simp [pend, ho, hin, hoc, updLock, hrd]
+            · have : sh'.owner .console = s.sh.owner .console := by
+                rw [ho]; split
+                · rfl
+                · simp [updLock]; intro h; exact absurd h.symm hk
+              simp only [pend, this]
+              cases s.sh.owner .console with
+              | none => rfl
+              | some u => by_cases hu : u = t <;> simp [upd, hu, hd, hb]
+          · simp only [pend, ho]
+            cases s.sh.owner .console with
+            | none => rfl
+            | some u => by_cases hu : u = t <;> simp [upd, hu, hd, hb]
+        simpa only [RecInv, fileItems, hr, hf, hp] using ri
+      · have hp : pend { sh := sh', th := upd s.th t l' } = pend s := by
+          simp only [pend, ho]
+          cases s.sh.owner .console with
+          | none => rfl
+          | some u => by_cases hu : u = t <;> simp [upd, hu, hd, hb]
+        simpa only [RecInv, fileItems, hr, hf, hp] using ri
+    · rw [if_neg hg] at h
+      simp only [Option.some.injEq] at h
+      subst h
+      have hp : pend { s with th := upd s.th t { s.th t with cont := r } } = pend s :=
+        pend_congr rfl (fun u => by by_cases hu : u = t <;> simp [upd, hu])
+      simpa only [RecInv, fileItems, hp] using ri
+
+theorem rec_run {cfg : Cfg} (hrec : cfg.record = true) (sched : List Nat) :
+    ∀ {s : State}, Inv cfg s → RecInv s → RecInv (run cfg s sched) := by
+  induction sched with
+  | nil => intro s _ h; exact h
+  | cons t rest ih =>
+    intro s hi h
+    simp only [run, List.foldl_cons]
+    cases hs : stepT cfg s t with
+    | none => simpa [run] using ih hi h
+    | some s' => simpa [run] using ih (inv_step hi hs) (rec_step hrec hi h hs)
 
 end RichModel.Conc
